@@ -1,85 +1,28 @@
-(* C04 — the expected mutator closure (hand-written; compared with the list regenerated from the source, Gen/Mutators.v).
-   Under this closure the only code that changes the engine database below the chain prefixes is Chain.AddBlock,
-   Chain.RemoveBlock (each: one batch, one Write) and DataAccess.ClearTempBlocks (temp table only), i.e. every sync / fork
-   choice / restart behaviour is a sequence of the operations of Chain/Finality.v.  Definitions only. *)
+(* C04 / C13 — the expected mutator closure at the SEMANTIC level (hand-written; compared with coq/Gen/Mutators.v, which
+   translate/mutators regenerates from the source by abstract interpretation with helper functions inlined).
+   Per exported step: the batches created, the objects staged into, the durable commits and the direct database writes —
+   unchanged by extracting / inlining helpers, renaming, or passing the same batch on as a parameter; changed by a write through
+   c.database / d.database (directly or through a parameter bound to it), a second batch, or a second commit.
+   Under this closure every sync / fork choice / restart behaviour is a sequence of the operations of Chain/Finality.v and every
+   step is one atomic batch (Chain/Crash.v). *)
 From Coq Require Import List String NArith Bool.
 Import ListNotations.
 Local Open Scope string_scope.
 
-Definition expected_sites : list (string * string * string * string * N) := [
-  ("blockchain", "Chain.AddBlock", "c.database", "Write", 1%N);
-  ("blockchain", "Chain.RemoveBlock", "c.database", "Write", 1%N);
-  ("blockchain", "DataAccess.ClearTempBlocks", "batch", "Del", 1%N);
-  ("blockchain", "DataAccess.ClearTempBlocks", "d.database", "NewBatch", 1%N);
-  ("blockchain", "DataAccess.ClearTempBlocks", "d.database", "Write", 1%N);
-  ("blockchain", "DataAccess.removeBlock", "batch", "Del", 6%N);
-  ("blockchain", "DataAccess.removeBlock", "batch", "Set", 1%N);
-  ("blockchain", "DataAccess.saveBlock", "batch", "Del", 2%N);
-  ("blockchain", "DataAccess.saveBlock", "batch", "Set", 7%N);
-  ("consensus/liskbft", "deleteBFTParams", "paramsStore", "Del", 1%N);
-  ("consensus/liskbft", "deleteGeneratorKeys", "keysStore", "Del", 1%N);
-  ("consensus/sync", "Syncer.HandleRPCEndpointGetBlocksFromID", "w", "Write", 1%N);
-  ("consensus/sync", "Syncer.HandleRPCEndpointGetHighestCommonBlock", "w", "Write", 2%N);
-  ("consensus/sync", "Syncer.HandleRPCEndpointGetLastBlock", "w", "Write", 1%N);
-  ("consensus", "Executer.deleteBlock", "batch", "Del", 1%N);
-  ("consensus", "Executer.deleteBlock", "c.database", "NewBatch", 1%N);
-  ("consensus", "Executer.deleteBlock", "diffStore", "RevertDiff", 1%N);
-  ("consensus", "Executer.processGenesisBlock", "abi", "Commit", 1%N);
-  ("consensus", "Executer.processGenesisBlock", "batch", "Set", 1%N);
-  ("consensus", "Executer.processGenesisBlock", "c.database", "NewBatch", 1%N);
-  ("consensus", "Executer.processGenesisBlock", "consensusStore", "Commit", 1%N);
-  ("consensus", "Executer.processValidated", "abi", "Commit", 1%N);
-  ("consensus", "Executer.processValidated", "batch", "Del", 1%N);
-  ("consensus", "Executer.processValidated", "batch", "Set", 1%N);
-  ("consensus", "Executer.processValidated", "c.database", "NewBatch", 1%N);
-  ("consensus", "Executer.processValidated", "consensusStore", "Commit", 1%N);
-  ("consensus", "genesisStateExecuter.Commit", "c.client", "Commit", 1%N);
-  ("consensus", "stateExecuter.Commit", "c.client", "Commit", 1%N)
+Definition expected_steps : list (string * string) := [
+  ("Executer.processValidated", "batches created [B1]; staged into {B1}; durable commits [B1]; direct database writes []");
+  ("Executer.processGenesisBlock", "batches created [B1]; staged into {B1}; durable commits [B1]; direct database writes []");
+  ("Executer.deleteBlock", "batches created [B1]; staged into {B1}; durable commits [B1]; direct database writes []");
+  ("Chain.AddBlock", "batches created []; staged into {P0}; durable commits [P0]; direct database writes []");
+  ("Chain.RemoveBlock", "batches created []; staged into {P0}; durable commits [P0]; direct database writes []");
+  ("DataAccess.ClearTempBlocks", "batches created [B1]; staged into {B1}; durable commits [B1]; direct database writes []")
 ].
 
-Definition expected_delete_calls : list (string * string * string) := [
-  ("consensus/sync:blockSyncer.deleteTillCommonBlock", "lastBlock", "s.chain.LastBlock()");
-  ("consensus/sync:fastSyncer.deleteTillCommonBlock", "lastBlock", "s.chain.LastBlock()");
-  ("consensus:Executer.process", "lastBlock", "c.chain.LastBlock()")
+Definition expected_global : list string := [
+  "database.Write call sites: 3";
+  "direct database writes: []"
 ].
 
-(* a site writes the database directly when its receiver is the database handle and the method is a durable one *)
-Definition ends_with_database (recv : string) : bool :=
-  let n := String.length recv in
-  (String.eqb (substring (n - 8) 8 recv) "database").
-Definition is_durable (s : string * string * string * string * N) : bool :=
-  let '(_, _, recv, m, _) := s in
-  ends_with_database recv && (String.eqb m "Write" || String.eqb m "Set" || String.eqb m "Del" || String.eqb m "DropAll").
-Definition durable_writers (l : list (string * string * string * string * N)) : list (string * string * N) :=
-  map (fun s => let '(p, f, _, _, n) := s in (p, f, n)) (filter is_durable l).
-
-Definition expected_durable : list (string * string * N) :=
-  [("blockchain", "Chain.AddBlock", 1%N); ("blockchain", "Chain.RemoveBlock", 1%N); ("blockchain", "DataAccess.ClearTempBlocks", 1%N)].
-
-(* every caller of deleteBlock passes the block it has just read with LastBlock() *)
-Definition delete_arg_is_tip (d : string * string * string) : bool :=
-  let '(_, _, how) := d in
-  let n := String.length how in String.eqb (substring (n - 11) 11 how) "LastBlock()".
-
-(* arguments bound to writer parameters, one level of indirection (a function that receives something it calls Set/Del/Write on,
-   or hands to Commit/RevertDiff): a batch is fine, the database handle there would be a direct durable write that no
-   `x.database.Set(` pattern shows *)
-Definition expected_writer_args : list (string * string * string) := [
-  ("blockchain:Chain.AddBlock", "saveBlock", "batch");
-  ("blockchain:Chain.RemoveBlock", "removeBlock", "batch");
-  ("consensus/liskbft:Module.BeforeTransactionsExecute", "deleteBFTParams", "paramsStore");
-  ("consensus/liskbft:Module.BeforeTransactionsExecute", "deleteGeneratorKeys", "keysStore");
-  ("consensus:Executer.deleteBlock", "RemoveBlock", "batch");
-  ("consensus:Executer.deleteBlock", "RevertDiff", "batch");
-  ("consensus:Executer.processGenesisBlock", "AddBlock", "batch");
-  ("consensus:Executer.processGenesisBlock", "Commit", "batch");
-  ("consensus:Executer.processGenesisBlock", "Commit", "ctx.block.Header.StateRoot");
-  ("consensus:Executer.processValidated", "AddBlock", "batch");
-  ("consensus:Executer.processValidated", "Commit", "batch");
-  ("consensus:Executer.processValidated", "Commit", "c.chain.LastBlock().Header.StateRoot");
-  ("consensus:genesisStateExecuter.Commit", "Commit", "&labi.CommitRequest{ ContextID: c.contextID, StateRoot: []byte{}, ExpectedStateRoot: expectedStateRoot, DryRun: false, }");
-  ("consensus:stateExecuter.Commit", "Commit", "&labi.CommitRequest{ ContextID: c.contextID, StateRoot: currentStateRoot, ExpectedStateRoot: expectedStateRoot, DryRun: false, }")
+Definition expected_delete_origin : list string := [
+  "block arguments not originating from LastBlock(): []"
 ].
-
-Definition writer_arg_is_database (d : string * string * string) : bool :=
-  let '(_, _, arg) := d in ends_with_database arg.
